@@ -89,7 +89,26 @@ func Verif_C06_Unary() {
 	if err != nil {
 		zv.Reach("returned-early")
 		verifScramble(req)
+		// nor does it write the caller's response message any more: the caller may
+		// reuse it (e.g. for a retry) as soon as the call has returned
+		atReturn := &verifMsg{Payload: append([]byte(nil), resp.Payload...), Count: resp.Count, Code: resp.Code, DelayMillis: resp.DelayMillis}
+		for k, v := range resp.Trailers {
+			if atReturn.Trailers == nil {
+				atReturn.Trailers = map[string][]byte{}
+			}
+			atReturn.Trailers[k] = v
+		}
+		for k, v := range resp.Headers {
+			if atReturn.Headers == nil {
+				atReturn.Headers = map[string][]byte{}
+			}
+			atReturn.Headers[k] = v
+		}
+		for _, d := range resp.ErrorDetails {
+			atReturn.ErrorDetails = append(atReturn.ErrorDetails, &anypb.Any{TypeUrl: d.TypeUrl, Value: append([]byte(nil), d.Value...)})
+		}
 		zv.Quiesce() // let the handler goroutine (if still running) finish
+		zv.Assert(verifC06Equal(resp, atReturn), "response-message-not-written-after-the-call-returned")
 		_ = handlerSaw
 		return
 	}
